@@ -18,6 +18,7 @@ type AnyBuf interface {
 	Append(src AnyBuf)     // src must have the same element type
 	Channel(c int) AnyChan // the channel view
 	BufferIndex(c, i int) int
+	WriteVals(vs []Val) int // signal.Write of the values (element type T) into the buffer
 }
 
 // AnyChan is a type-erased signal.C[T].
@@ -38,6 +39,14 @@ func (c tChan[T]) BufferIndex(ch, i int) int { return c.c.BufferIndex(ch, i) }
 func (c tChan[T]) Channels() int             { return c.c.Channels() }
 func (c tChan[T]) Length() int               { return c.c.Length() }
 func (c tChan[T]) Capacity() int             { return c.c.Capacity() }
+
+func (b TBuf[T]) WriteVals(vs []Val) int {
+	in := make([]T, len(vs))
+	for i, v := range vs {
+		in[i] = As[T](v)
+	}
+	return signal.Write(in, b.B)
+}
 
 func (b TBuf[T]) Append(src AnyBuf)        { b.B.Append(src.Raw().(*signal.Buffer[T])) }
 func (b TBuf[T]) Channel(c int) AnyChan    { return tChan[T]{b.B.Channel(c)} }
